@@ -633,3 +633,9 @@ package allocator
 // (engine limit: thread-local freshness is not tracked across Lock). See report, Undecided.
 //@ func NewPoolAllocatorWithType
 //@   ensures err == nil ==> result != nil && fresh(result) && result.allocator != nil && result.store == cfg.Store
+
+// Removing a record is idempotent: it succeeds whether or not the record is there, so a release is
+// never refused because store and memory have drifted apart (the address would stay bound for good).
+//@ func (s *MemoryAllocationStore) RemoveAllocation
+//@   ensures err == nil
+
